@@ -759,7 +759,7 @@ theorem doTRB_outside_refusal (ops : StratOps S) (P : Option (Provider S G)) (c 
 /-- **C09 / C03 (`no_panicB`, full strength)** — with a provider whose `EnsureRoutes` does not panic,
     `DoTrafficRouting` does not panic: for **every** state of the Services — a stable Service without any selector
     included —, every context, every write budget and read fault.
-    (Before rollouts commit FIXCOMMIT-selectorless this held only outside the region `refusesBare`, where
+    (Before rollouts commit bc46e20 this held only outside the region `refusesBare`, where
     `createCanaryService` assigned into the nil selector map: fixed finding `selectorlessStable`.) -/
 theorem no_panicB (ops : StratOps S) (P : Provider S G) (hP : ∀ a g s, (P.ensure a g s).panic = false)
     (c : XCtx S) (a : Api) (n : XNet G) (m : Mem) (bare : Bool) :
